@@ -30,6 +30,11 @@ type BankCase struct {
 	Amount string `json:"amount"`
 }
 
+type NondetItem struct {
+	Name string      `json:"name"`
+	JSON interface{} `json:"json"`
+}
+
 type CaseFile struct {
 	Obligation string                 `json:"obligation"`
 	Label      string                 `json:"label"`
@@ -37,6 +42,9 @@ type CaseFile struct {
 	Site       string                 `json:"site,omitempty"`
 	Detail     string                 `json:"detail,omitempty"`
 	Nondet     map[string]interface{} `json:"nondet"`
+	NondetSeq  []NondetItem           `json:"nondet_seq"`
+	EnvInts    []string               `json:"env_ints,omitempty"`
+	AddrMap    map[string]string      `json:"address_map,omitempty"`
 	Stores     []StoreCase            `json:"stores"`
 	Params     map[string]interface{} `json:"params,omitempty"`
 	Bank       []BankCase             `json:"bank,omitempty"`
@@ -140,12 +148,24 @@ func (m *Machine) caseTerms() []*Term {
 		add(b.denom)
 		add(b.val)
 	}
+	base := append([]*Term{}, out...)
+	for _, t := range base {
+		if t.sort != SString {
+			continue
+		}
+		for _, name := range []string{"validbech32_acc", "validbech32_val"} {
+			if _, ok := m.in.ufs[name]; ok {
+				add(m.in.UF(name, SBool, t))
+			}
+		}
+	}
 	return out
 }
 
 type modelEval struct {
 	m     *Machine
 	model map[string]string
+	addr  map[string]string // model string -> real bech32 address
 }
 
 func (ev *modelEval) raw(t *Term) (string, bool) {
@@ -249,7 +269,11 @@ func (ev *modelEval) strOf(t *Term) string {
 		return t.sv
 	}
 	if s, ok := ev.raw(t); ok {
-		return parseSmtString(s)
+		v := parseSmtString(s)
+		if r, ok := ev.addr[v]; ok {
+			return r
+		}
+		return v
 	}
 	return ""
 }
@@ -442,10 +466,37 @@ func (m *Machine) peekPtr(v Value) (Pointer, bool) {
 }
 
 func (m *Machine) buildCase(label string, model map[string]string) *CaseFile {
-	ev := &modelEval{m: m, model: model}
-	cf := &CaseFile{Label: label, Nondet: map[string]interface{}{}, Params: map[string]interface{}{}, Trace: append([]int{}, m.trace...)}
+	ev := &modelEval{m: m, model: model, addr: map[string]string{}}
+	// strings the path treats as valid bech32 become real addresses (consistently, everywhere)
+	n := 0
+	for _, t := range m.caseTerms() {
+		if t.sort != SString {
+			continue
+		}
+		for _, kind := range []string{"acc", "val"} {
+			name := "validbech32_" + kind
+			if _, ok := m.in.ufs[name]; !ok {
+				continue
+			}
+			app := m.in.UF(name, SBool, t)
+			if v, ok := model[termKey(app)]; ok && strings.TrimSpace(v) == "true" {
+				raw := parseSmtString(model[termKey(t)])
+				if _, done := ev.addr[raw]; !done && !strings.HasPrefix(raw, "mod:") {
+					n++
+					hrp := m.eng.app.prefix()
+					if kind == "val" {
+						hrp += "valoper"
+					}
+					ev.addr[raw] = genAddress(hrp, n)
+				}
+			}
+		}
+	}
+	cf := &CaseFile{AddrMap: ev.addr, Label: label, Nondet: map[string]interface{}{}, Params: map[string]interface{}{}, Trace: append([]int{}, m.trace...)}
 	for _, n := range m.nondets {
-		cf.Nondet[n.Name] = ev.jsonOf(n.Val, n.Typ)
+		j := ev.jsonOf(n.Val, n.Typ)
+		cf.Nondet[n.Name] = j
+		cf.NondetSeq = append(cf.NondetSeq, NondetItem{Name: n.Name, JSON: j})
 	}
 	for _, name := range m.w.order {
 		for _, e := range m.w.stores[name].init {
@@ -468,6 +519,7 @@ func (m *Machine) buildCase(label string, model map[string]string) *CaseFile {
 	}
 	for i, t := range m.w.envSyms {
 		cf.Env = append(cf.Env, fmt.Sprintf("%d:%s=%s", i, t.name, ev.intOf(t).String()))
+		cf.EnvInts = append(cf.EnvInts, ev.intOf(t).String())
 	}
 	cf.Env = append(cf.Env, m.w.envLog...)
 	return cf
